@@ -20,6 +20,7 @@ package static
 import (
 	"bytes"
 	"encoding/json"
+	"errors"
 	"fmt"
 	"io"
 	"io/ioutil"
@@ -33,6 +34,7 @@ import (
 	"path/filepath"
 	"strconv"
 	"strings"
+	"syscall"
 
 	"github.com/google/martian/v3"
 	"github.com/google/martian/v3/parse"
@@ -89,7 +91,7 @@ func (s *Modifier) ModifyResponse(res *http.Response) error {
 
 	f, err := os.Open(fpth)
 	switch {
-	case os.IsNotExist(err):
+	case os.IsNotExist(err), cannotExist(err):
 		res.StatusCode = http.StatusNotFound
 		return nil
 	case os.IsPermission(err):
@@ -323,6 +325,15 @@ func parsePosition(s string) (int64, bool) {
 		return math.MaxInt64, true
 	}
 	return int64(n), true
+}
+
+// cannotExist reports whether err, returned by os.Open, says that the path
+// cannot name a file at all: one of its components is a regular file, a name
+// is longer than the file system allows, or it contains a NUL byte. Such
+// paths come straight from request URLs ("/file.txt/x", "/%00", a 300
+// character segment) and are as absent as a path that merely does not exist.
+func cannotExist(err error) bool {
+	return errors.Is(err, syscall.ENOTDIR) || errors.Is(err, syscall.ENAMETOOLONG) || errors.Is(err, syscall.EINVAL)
 }
 
 // SetExplicitPathMappings sets an optional mapping of request paths to local
